@@ -171,6 +171,26 @@ def mul_events(args):
                         events.append({"c": c, "op": "mul", "A": {"t": tN}, "B": Z0, "k": kk, "ka": 0, "kb": 0, "out": out, "raw": [],
                                        "how": name + "/negated-after-use"})
                         keys.append(["F8-y0"] if even_order(P) else [])
+        # the identity as the left operand, as the library itself hands it out (n*P, P + (-P), 0*P), times scalars of either sign
+        for name, rep, order in (("plain", ("jac", 1), None), ("order", ("jac", 2), n if with_order else None), ("legacy", "aff", None)):
+            A = make(ec, cf, P, rep, p, order, False)
+            zeros = [("n*P", lambda: A * (n if with_order else toy.t_order(P, p, a))), ("P+(-P)", lambda: A + (-A)), ("0*P", lambda: A * 0)]
+            for zname, zf in zeros:
+                try:
+                    Z = zf()
+                except BaseException:  # noqa  (reported by the events of that operation itself)
+                    continue
+                if not (Z is ec.INFINITY or Z == ec.INFINITY):
+                    continue
+                for k in (-3, -1, 0, 1, 5, -(n + 1)):
+                    out = out_point(ec, (lambda: k * Z) if k % 2 else (lambda: Z * k))
+                    events.append({"c": c, "op": "mul", "A": Z0, "B": Z0, "k": k, "ka": 0, "kb": 0, "out": out, "raw": [],
+                                   "how": "identity obtained as %s of a %s point" % (zname, name)})
+                    keys.append(["F8-y0"] if even_order(P) else [])
+                out = out_point(ec, lambda: (-3) * Z + A)
+                events.append({"c": c, "op": "add", "A": Z0, "B": {"t": triple(ec, cname, A)}, "k": 0, "ka": 0, "kb": 0, "out": out,
+                               "raw": [], "how": "(-3) * identity + P"})
+                keys.append(["F8-y0"] if even_order(P) else [])
         # mul_add: a*P + b*Q for Q in {P, -P, 2P, identity, another point}
         others = [P, (P[0], (-P[1]) % p), toy.t_add(P, P, p, a), None, pts[(pts.index(P) + 1) % len(pts)]]
         for Q in others:
